@@ -341,7 +341,12 @@ class ExprMixin(object):
             if idx.kind == "int":
                 zi = z3.simplify(self.as_int(idx))
                 if z3.is_int_value(zi):
-                    return st, base.py[zi.as_long()]
+                    k = zi.as_long()
+                    if -len(base.py) <= k < len(base.py):
+                        return st, base.py[k]
+                    if self.in_spec:
+                        return st, SV(self.u.fresh_val("oob"))     # clause text guarded by len(...)
+                    raise Undecided("tuple index out of range")
             raise Undecided("symbolic index into python-side tuple")
         if base.kind == "str":
             f = u.uf("str_index", u.Str, u.Int, u.Val)
